@@ -107,6 +107,12 @@ Universe ==
                         \cup {Ins(mn, <<Rg(w, a), Im(v, "h")>>) : mn \in AluI, w \in {16, 32}, a \in {0, 3}, v \in {127, 128, 255}}
                         \cup {Ins("MOV", <<Rg(w, a), Im(v, "d")>>) : w \in W, a \in Regs, v \in {0, 1, 127, 128, -1}}
     [] Part = "c18m" -> UNION {{Ins(mn, <<m, Im(v, "d")>>) : m \in MemFew(w), v \in {-129, -128, 127, 128, 1}} : mn \in AluI, w \in W}
+    \* memory operands whose displacement is a LABEL (C03: embedded label values)
+    [] Part = "lblmem" -> LET ML(w, aw, b, d) == [t |-> "m", w |-> w, aw |-> aw, b |-> b, x |-> -1, sc |-> 1, d |-> d, hd |-> IF d = 0 THEN 0 ELSE 1, lab |-> "lbl0", sty |-> "d"] IN
+                          UNION {{Ins("MOV", <<Rg(w, r), ML(0, 0, -1, d)>>), Ins("MOV", <<ML(0, 0, -1, d), Rg(w, r)>>), Ins("ADD", <<Rg(w, r), ML(0, 0, -1, d)>>),
+                                  Ins("CMP", <<ML(w, 0, -1, d), Im(1, "d")>>)} : w \in W, r \in {0, 3}, d \in {0, 2}}
+                          \cup {Ins("LGDT", <<ML(0, 0, -1, d)>>) : d \in {0, 2}}
+                          \cup {Ins("MOV", <<Rg(16, 0), ML(0, 16, b, 0)>>) : b \in {3, 6}} \cup {Ins("MOV", <<Rg(32, 1), ML(0, 32, b, 4)>>) : b \in {0, 5}}
     [] Part = "mem16" -> CarriersOf(Mem16(0))
     [] Part = "mem32a" -> CarriersOf({m \in Mem32(0, {-1} \cup Regs, {-1}, {1}, Disp32) : Valid32(m)})
     [] Part = "mem32b" -> CarriersOf({m \in Mem32(0, {-1} \cup Regs, Regs \ {4}, {1, 2, 4, 8}, {0, 1, -1, 127, 128, -128, -129, 305419896}) : Valid32(m)})
